@@ -88,8 +88,15 @@ def call_src(case, macro_body: str) -> tuple[str, str]:
 def build(case, prelude, *, with_assigns: bool = True) -> tuple[str, dict]:
     body = OPEN + body_src(case["body"], with_assigns=with_assigns) + CLOSE
     definition, call = call_src(case, body)
-    before, after = prelude_src(prelude)
     post = "POST:" + "".join("{{ " + n + " }}," for n in NAMES)
+    if case.get("in_block"):
+        # the call sits in a block of a template that extends another one; what the prelude assigns or captures is
+        # bound in the enclosing template (before the extends tag), loops and with blocks go round the call
+        top, _ = prelude_src([s for s in prelude if s[0] in ("assign", "capture", "incr")])
+        before, after = prelude_src([s for s in prelude if s[0] in ("for", "with")])
+        src = top + "{% extends 'xbase' %}{% block main %}" + definition + before + call + after + post + "{% endblock %}"
+        return src, {"p": body, "xbase": "[{% block main %}{% endblock %}]"}
+    before, after = prelude_src(prelude)
     src = definition + before + call + after + post
     return src, {"p": body}
 
@@ -105,6 +112,9 @@ VIAS = {
     "render_in_loop": "{% for i in gl %}{% render 'p' %}{% endfor %}",
     "nested": "{% render 'outer' %}",
     "nested_for": "{% render 'outer_for' %}",
+    "extending_partial": "{% render 'xq' %}",
+    "extending_partial_for": "{% render 'xq' for gl as a %}",
+    "in_block": "{% extends 'xqbase' %}{% block b %}{% render 'p' %}{% endblock %}",
     "macro": "{% macro m %}$BODY{% endmacro %}{% call m %}",
     "macro_args": "{% macro m a, b: 1 %}$BODY{% endmacro %}{% call m 2 %}",
 }
@@ -121,7 +131,8 @@ def evaluate(case) -> Verdict:
     v = Verdict()
     if case["kind"] == "include-disabled":
         partial = case["partial"]
-        env = envs.make_env({"mode": "strict", "extra": True, "twice": False}, {"p": partial, "q": "Q", "outer": "{% render 'p' %}", "outer_for": "{% render 'p' for gl as it %}"})
+        env = envs.make_env({"mode": "strict", "extra": True, "twice": False}, {"p": partial, "q": "Q", "outer": "{% render 'p' %}", "outer_for": "{% render 'p' for gl as it %}",
+                                                                                 "xq": "{% extends 'xqbase' %}{% block b %}" + partial + "{% endblock %}", "xqbase": "Q[{% block b %}{% endblock %}]"})
         src = VIAS[case["via"]].replace("$BODY", partial)
         o = oc.outcome_of(lambda: env.from_string(src).render(gw="GW", gl=["L1", "L2"], one=["x"]))
         if not (o[0] == "liquid" and o[1] == "DisabledTagError"):
@@ -274,6 +285,7 @@ def cases(draw):
         "kind": "iso", "mode": mode, "args": args, "alias": alias, "globals": glob,
         "prelude1": _prelude(r), "prelude2": _prelude(r), "body": _body(r),
     }
+    case["in_block"] = r.random() < 0.25
     if mode == "macro":
         rest = [n for n in NAMES if n not in {k for k, _ in args}]
         case["omitted"] = [[k, r.choice([None, None, "D1"])] for k in r.sample(rest, r.choice([0, 1, 2]))]
@@ -307,7 +319,7 @@ def finish_kwargs(ctx: core.Ctx, tier: str) -> dict:
         "rule": (
             "Callers = a prelude binding any of four names by assign, capture, an enclosing for loop, an enclosing "
             "with block or a counter, then {% render 'p' %} (plain, with ... as, for ... as, literal keyword "
-            "arguments) or {% macro %}/{% call %} (positional or keyword arguments, some parameters omitted with or "
+            "arguments; a quarter of the cases put the call in a block of a template that extends another one) or {% macro %}/{% call %} (positional or keyword arguments, some parameters omitted with or "
             "without a default), then a postlude printing the four names; the partial/macro body "
             "reads, assigns, captures, increments and loops over the same names, and reads forloop / forloop.parentloop / "
             "tablerowloop, between sentinels. R1: the text "
